@@ -48,6 +48,25 @@ Proof.
   rewrite !roundtrip_tt. repeat split; try reflexivity; apply N.eqb_sym.
 Qed.
 
+(* TagType::val(), TagTypeId::new(), and the derived (structural) PartialEq of TagType on converted values *)
+Lemma val_roundtrip x : tagtype_val (tagtype_of_u32 x) = x /\ u32_of_id (id_new x) = x.
+Proof. split; [apply roundtrip_tt|reflexivity]. Qed.
+
+Definition canonical (t : tagtype) : Prop := match t with Custom c => 22 <= c | _ => True end.
+Lemma canonical_of_u32 x : canonical (tagtype_of_u32 x).
+Proof.
+  destruct (N.leb_spec x 21) as [H|H].
+  - bits5 x; try exact I; exfalso; lia.
+  - rewrite custom_tt by lia. cbn. lia.
+Qed.
+Lemma tagtype_eqb_canonical a b : canonical a -> canonical b -> tagtype_eqb a b = (u32_of_tagtype a =? u32_of_tagtype b).
+Proof.
+  intros Ha Hb. destruct a, b; cbn in Ha, Hb |- *; try reflexivity;
+    symmetry; apply N.eqb_neq; lia.
+Qed.
+Lemma derived_eq x y : tagtype_eqb (tagtype_of_u32 x) (tagtype_of_u32 y) = (x =? y).
+Proof. rewrite tagtype_eqb_canonical by apply canonical_of_u32. rewrite !roundtrip_tt. reflexivity. Qed.
+
 (* symbolic types: equality with an id agrees with numeric equality of the numbers *)
 Lemma eq_sym_types t i : eq_type_id t i = (u32_of_tagtype t =? u32_of_id i) /\ eq_id_type i t = (u32_of_id i =? u32_of_tagtype t).
 Proof. unfold eq_id_type, eq_type_id. split; [reflexivity|apply N.eqb_sym]. Qed.
